@@ -22,8 +22,8 @@ RULE = ("workloads W1 cold first call, W2 warm call + miss, W3 call after the fu
         "W6 compressed store, W7 reduce_size, W8 clear of a function and of the whole store, W9 results spanning several "
         "pages, W10 func_code.py longer than a page, W13 the same with non-ASCII text straddling the page boundary, W11/W12 source change with six old entries (the function directory is wiped file by file, in two different directory orders); a case is (workload, crash point): SIGKILL before the k-th mutating "
         "file-system call under the cache directory for every k, after the last one, and after each page-boundary prefix "
-        "of every write crossing a 4096-byte file offset; each crashed directory is then recovered four times in fresh "
-        "processes (plain Memory, with expires_after(days=1), with a user-defined callback reading metadata['duration'] / ['time'], and through call_and_shelve(x).get() with check_call_in_cache compared against what the call then does); in the thorough tier a third of them are recovered by a process that is itself killed at every second of its own mutating calls, and recovered again; distinct_nontrivial counts distinct (workload, crash "
+        "of every write crossing a 4096-byte file offset; each crashed directory is then recovered five times in fresh "
+        "processes (plain Memory, with expires_after(days=1), with a user-defined callback reading metadata['duration'] / ['time'], and through call_and_shelve(x).get() with check_call_in_cache compared against what the call then does - with a silent and with a verbose (verbose=11) Memory); in the thorough tier a third of them are recovered by a process that is itself killed at every second of its own mutating calls, and recovered again; distinct_nontrivial counts distinct (workload, crash "
         "point, crash mode) whose process was really killed by the shim")
 ASSUMPTIONS = [
     "crash model: process death on a local file system - directory operations atomic, torn writes at page granularity",
@@ -221,7 +221,7 @@ def run_case(case, ctx):
                 ctx.count("torn_write_points")
             ctx.sig((w, k, mode))
             ctx.add("crash_ops", f"{ev['op']}:{path_class(ev['path'])}:{mode.split(':')[0]}")
-            for phase in ("recover", "recover_cb", "recover_udcb", "recover_shelve"):
+            for phase in ("recover", "recover_cb", "recover_udcb", "recover_shelve", "recover_shelve_verbose"):
                 d2 = d + "." + phase
                 clone(d, d2)
                 rr = run_phase(w, phase, d2)
@@ -235,7 +235,7 @@ def run_case(case, ctx):
                                       f"after {desc}: files visible under their final name are not complete results: {res['bad_final_files'][:2]}", desc)
                     if res["error"]:
                         e = res["error"]
-                        key = f"{e['type']}@{e['where'][-1] if e['where'] else '?'}" + {"recover_cb": "+validation-callback", "recover_udcb": "+user-validation-callback", "recover_shelve": "+shelved-references"}.get(phase, "")
+                        key = f"{e['type']}@{e['where'][-1] if e['where'] else '?'}" + {"recover_cb": "+validation-callback", "recover_udcb": "+user-validation-callback", "recover_shelve": "+shelved-references", "recover_shelve_verbose": "+shelved-references+verbose"}.get(phase, "")
                         ctx.violation(key, f"fresh process after a kill {mode} {ev['op']} of {ev['path'].rsplit('/', 2)[-1]} ({w}, call #{k}): "
                                            f"cached call raised {e['type']}: {e['msg']} at {e['where']}", dict(desc, phase=phase, error=e))
                 shutil.rmtree(d2, ignore_errors=True)
